@@ -10,7 +10,10 @@
 //   loc <rle>                encodeLocals       rle := "-" (empty) | count:byte,count:byte,...   (decimal)
 //   str <rle>                encodeString
 //   sec <id> <rle>           emitSection(byte(id), content)
-// A malformed request is answered with "ERR <reason>".
+// A malformed request is answered with "ERR <reason>", a panic of the encoder with "PANIC <value>".  Every answer is
+// flushed at once.  An encoder call that does not return within 2 s is answered with "TIMEOUT" and the process exits
+// with status 3 (the caller restarts the driver behind that request; it also caps the address space, because a
+// non-terminating encoder loop appends without bound).
 package main
 
 import (
@@ -20,6 +23,7 @@ import (
 	"os"
 	"strconv"
 	"strings"
+	"time"
 
 	"compiler/internal/codegen/wasm"
 )
@@ -114,11 +118,41 @@ func main() {
 		if line == "" {
 			continue
 		}
-		b, err := handle(strings.Fields(line))
+		type res struct {
+			b   []byte
+			err error
+		}
+		ch := make(chan res, 1)
+		fields := strings.Fields(line)
+		go func() {
+			defer func() {
+				if r := recover(); r != nil {
+					ch <- res{nil, fmt.Errorf("PANIC %v", r)}
+				}
+			}()
+			b, err := handle(fields)
+			ch <- res{b, err}
+		}()
+		var b []byte
+		var err error
+		select {
+		case r := <-ch:
+			b, err = r.b, r.err
+		case <-time.After(2 * time.Second):
+			fmt.Fprintln(out, "TIMEOUT")
+			out.Flush()
+			os.Exit(3)
+		}
 		if err != nil {
-			fmt.Fprintf(out, "ERR %v\n", err)
+			if strings.HasPrefix(err.Error(), "PANIC") {
+				fmt.Fprintf(out, "%v\n", err)
+			} else {
+				fmt.Fprintf(out, "ERR %v\n", err)
+			}
+			out.Flush()
 			continue
 		}
 		fmt.Fprintln(out, hex.EncodeToString(b))
+		out.Flush()
 	}
 }
